@@ -1,5 +1,6 @@
 // ===== trusted prelude: head (outside verus!) =====
 #![feature(allocator_api)]
+#![verifier::loop_isolation(false)]
 #![allow(unused_imports, dead_code, unused_variables, unused_mut, unused_parens, non_snake_case, unreachable_code, unused_assignments)]
 use vstd::prelude::*;
 use std::collections::{HashMap, HashSet};
